@@ -19,13 +19,15 @@ Inductive srcloc := LCd | LCode.
 Definition ld_op (l : srcloc) : string := match l with LCd => "calldataload" | LCode => "dload" end.
 Definition cp_op (l : srcloc) : string := match l with LCd => "calldatacopy" | LCode => "dloadbytes" end.
 Definition arg_base (l : srcloc) : Z := match l with LCd => 4 | LCode => 0 end.
-(* _prefer_copy_maxbound_heuristic: copy_cost <= length_calc_cost (+20 for DATA: dload is a codecopy + mload) *)
-Definition maxbound_thr (l : srcloc) (item1 : bool) : Z :=
-  (if item1 then 9 else 17) + match l with LCd => 0 | LCode => 20 end.
+(* _prefer_copy_maxbound_heuristic: copy_cost <= length_calc_cost (+45 when optimising for code size;
+   +20 for DATA: dload is a codecopy + mload) *)
+Definition maxbound_thr (l : srcloc) (cs : bool) (item1 : bool) : Z :=
+  (if item1 then 9 else 17) + (if cs then 45 else 0) + match l with LCd => 0 | LCode => 20 end.
 
 (* ------------------------------------------------------------------ legacy *)
 Section Legacy.
 Variable L : srcloc. (*section*)
+Variable CS : bool. (*section*)          (* -O codesize *)
 Definition lload (p : sx) : sx := app1 (ld_op L) p.
 
 (* copy_bytes(dst@memory, src@L, length, length_bound) *)
@@ -43,7 +45,7 @@ Definition copy_bytes_c (dst src len : sx) (bound : Z) : sx :=
 Definition bytes_copier_c (b : Z) (dst src : sx) : sx :=
   let s := cref "src" src in
   let maxb := b + 32 in
-  let len := if ceil32 b * 3 / 32 <=? maxbound_thr L true then SI maxb else add_ofst (lload s) (SI 32) in
+  let len := if ceil32 b * 3 / 32 <=? maxbound_thr L CS true then SI maxb else add_ofst (lload s) (SI 32) in
   cwrap "src" src (copy_bytes_c dst s len maxb).
 
 (* _getelemptr_abi_helper without _dirty_read_risk: no guard *)
@@ -75,7 +77,7 @@ Fixpoint ldecc (t : ty) (left right : sx) (n : Z) : sx * Z :=
         else
           let esz := vmem_size t' in
           let maxb := 32 + b * esz in
-          let nbytes := if ceil32 (maxb - 32) * 3 / 32 <=? maxbound_thr L false then SI maxb
+          let nbytes := if ceil32 (maxb - 32) * 3 / 32 <=? maxbound_thr L CS false then SI maxb
                         else add_ofst (app2 "mul" (SS "darray_count") (SI esz)) (SI 32) in
           (sseq [copy_bytes_c left r nbytes maxb], n) in
       (cwrap "arr_ptr" right (sseq [clampd; swith "darray_count" (lload r) body]), n2)
@@ -116,8 +118,9 @@ Fixpoint ldecc (t : ty) (left right : sx) (n : Z) : sx * Z :=
 End Legacy.
 
 (* make_setter(dst, get_element_ptr(base_args_ofst, k)) for argument k of type t (earlier arguments: one word each) *)
-Definition tpl_cd_l (L : srcloc) (k : Z) (t : ty) : sx :=
-  fst (ldecc L t (SS "dst") (abi_child_ptr_c L (is_dynamic t) (SI (arg_base L)) (SI (32 * k))) 0).
+Definition tpl_cd_l_opt (L : srcloc) (cs : bool) (k : Z) (t : ty) : sx :=
+  fst (ldecc L cs t (SS "dst") (abi_child_ptr_c L (is_dynamic t) (SI (arg_base L)) (SI (32 * k))) 0).
+Definition tpl_cd_l (L : srcloc) (k : Z) (t : ty) : sx := tpl_cd_l_opt L false k t.
 
 (* ------------------------------------------------------------------ venom *)
 Section Venom.
